@@ -122,7 +122,10 @@ class HistogramCollection(Container[Histogram1D], ObjectWithBinning):
         Note: If a bin is zero in all collections, the result will be inf.
         """
         col = self if inplace else self.copy()
-        sums = self.sum().frequencies
+        # Summed in double precision (float16 / float32 members would overflow or round)
+        sums = np.sum(
+            [np.asarray(h.frequencies, dtype=np.float64) for h in self.histograms], axis=0
+        )
         for h in col.histograms:
             h.set_dtype(float)
             h._frequencies /= sums
